@@ -251,7 +251,12 @@ func pickVer(r *rng, v2bias float64) int {
 }
 
 // genPlan expands a seed into a plan for one property.
-func genPlan(seed uint64, prop string) *Plan {
+func genPlan(seed uint64, prop string) *Plan { return genPlanOpt(seed, prop, false) }
+
+// genPlanOpt: cold plans are for short-lived processes; they skip the
+// initial parse of most cells (so that the library's very first use happens
+// inside the tasks) and, for C14, prefer several tasks.
+func genPlanOpt(seed uint64, prop string, cold bool) *Plan {
 	r := &rng{s: seed}
 	w := propWeights[prop]
 	p := &Plan{Seed: seed, Prop: prop}
@@ -262,6 +267,9 @@ func genPlan(seed uint64, prop string) *Plan {
 	}
 	if prop != "C14" && r.chance(0.5) {
 		nTasks = 1 // plain sequential histories
+	}
+	if cold && prop == "C14" && nTasks == 1 {
+		nTasks = 2 + r.intn(3)
 	}
 	maxOps := []int{3, 6, 12, 25, 40}[r.intn(5)]
 
@@ -279,9 +287,13 @@ func genPlan(seed uint64, prop string) *Plan {
 		}
 		p.Cells = append(p.Cells, CellSpec{Ver: pickVer(r, 0.25), Mode: mode, Owner: -1, Init: cellInit(r)})
 	}
+	coldZero := cold && r.chance(0.7)
 	for i := range p.Cells {
 		if p.Cells[i].Init == "?" {
 			p.Cells[i].Init = genValid(r, p.Cells[i].Ver)
+			if coldZero && p.Cells[i].Mode != mRO && p.Cells[i].Mode != mROHeap {
+				p.Cells[i].Init = "" // nothing of the library runs before the tasks
+			}
 		}
 	}
 
